@@ -557,6 +557,92 @@ def g10(rep):
                       "collector runs")
 
 
+def g12(rep):
+    """The sweep walks a mixed section piece by piece; every piece has a first quantum and a length in quanta, and the tag
+    array is cleared over [first, first + length) of *that* piece.  When a freed piece swallows a marked free neighbour, the
+    neighbour's marks are cleared over the neighbour's own interval: its first quantum plus its own length.  Pairing the
+    neighbour's first quantum with the length of the piece being freed clears too far when that piece is the larger one --
+    the mark bits of the live piece that follows are wiped, and the sweep takes it for garbage (a live array is poisoned and
+    handed out again).  In stoGcSweepMixed every loop that clears marks from `S` to `S + L` has S and L derived from the same
+    piece (piece <- index, size <- piece, length <- size; the next piece's index is index + length)."""
+    f = common.extract("store.c", "runtime", trees=["stoGcSweepMixed"])
+    fn = f.func("stoGcSweepMixed")
+    assigns = {}
+    for x in walk(fn["body"]):
+        if x["k"] == "BinaryOperator" and x["op"] == "=" and (strip(x["c"][0]) or {}).get("k") == "DeclRefExpr":
+            assigns.setdefault(strip(x["c"][0])["n"], []).append(x["c"][1])
+        elif x["k"] == "DeclStmt":
+            for d in x.get("decls", []):
+                if d.get("init") is not None:
+                    assigns.setdefault(d["n"], []).append(d["init"])
+
+    def names(e):
+        return [y["n"] for y in walk(e) if y["k"] == "DeclRefExpr" and y.get("dk") in ("var", "parm")]
+    owner = {}            # variable -> piece variable it belongs to
+    # pieces from an index: pc = (MxMem *)(data + qmno*qmsize)
+    for v, vals in assigns.items():
+        for e in vals:
+            if any(y["k"] == "BinaryOperator" and y["op"] == "*" for y in walk(e)) and "data" in names(e):
+                for i in names(e):
+                    if i not in ("data", "qmsize") and i in assigns:
+                        owner[v] = v
+                        owner[i] = v
+    changed = True
+    while changed:
+        changed = False
+        for v, vals in assigns.items():
+            if v in owner:
+                continue
+            for e in vals:
+                s_ = strip(e)
+                ns = names(e)
+                # size <- piece->nbytesThis ; length <- size / qmSize
+                if any(y["k"] == "MemberExpr" and y["n"] == "nbytesThis" for y in walk(e)) and len([n for n in ns if n in owner]) == 1:
+                    owner[v] = owner[[n for n in ns if n in owner][0]]; changed = True
+                elif s_ is not None and s_["k"] == "BinaryOperator" and s_["op"] == "/" and (strip(s_["c"][0]) or {}).get("n") in owner:
+                    owner[v] = owner[strip(s_["c"][0])["n"]]; changed = True
+                # next piece: npc = mxmemNext(pc)
+                elif (any((y.get("mac") or "") == "mxmemNext" for y in walk(e)) or
+                      (s_ is not None and s_["k"] == "CallExpr" and s_.get("callee") == "mxmemNext")) and \
+                        len(set(owner[n_] for n_ in ns if n_ in owner)) == 1:
+                    src = [owner[n_] for n_ in ns if n_ in owner][0]
+                    owner[v] = v; owner[("next", src)] = v; changed = True
+                # next index: nqmno = qmno + nq, both of one piece -> belongs to that piece's successor
+                elif s_ is not None and s_["k"] == "BinaryOperator" and s_["op"] == "+":
+                    a, b = (strip(s_["c"][0]) or {}).get("n"), (strip(s_["c"][1]) or {}).get("n")
+                    if a in owner and b in owner and owner[a] == owner[b] and ("next", owner[a]) in owner:
+                        owner[v] = owner[("next", owner[a])]; changed = True
+    n = 0
+    for lp in walk(fn["body"]):
+        if lp["k"] != "ForStmt" or not any((y.get("mac") or "") == "QmInfoClearMark" for y in walk(lp["c"][-1])) or \
+                any(y["k"] == "ForStmt" for y in walk(lp["c"][-1])):
+            continue
+        init, cond = strip(lp["c"][0]), strip(lp["c"][-3])
+        if init is None or cond is None or init["k"] != "BinaryOperator" or cond["k"] != "BinaryOperator" or cond["op"] != "<":
+            raise AnalysisBroken("stoGcSweepMixed: a mark-clearing loop that is not `for (qi = S; qi < E; qi++)`")
+        start = (strip(init["c"][1]) or {}).get("n")
+        end = strip(cond["c"][1])
+        if end is not None and end["k"] == "DeclRefExpr" and len(assigns.get(end["n"], [])) == 1:
+            end = strip(assigns[end["n"]][0])
+        if end is None or end["k"] != "BinaryOperator" or end["op"] != "+":
+            raise AnalysisBroken("stoGcSweepMixed: the end of a mark-clearing loop is not `start + length`")
+        a, b = (strip(end["c"][0]) or {}).get("n"), (strip(end["c"][1]) or {}).get("n")
+        n += 1
+        key = "marks-cleared-over-the-piece-itself@%d" % n
+        where = "store.c:%d (stoGcSweepMixed)" % lp["l"]
+        if start is None or a != start or start not in owner or b not in owner:
+            raise AnalysisBroken("%s: start `%s`, end `%s`: the piece they belong to could not be derived" % (where, start, render(end)[:40]))
+        if owner[start] == owner[b]:
+            rep.ok("G12", key, sample={"start": start, "length": b, "piece": owner[start]})
+        else:
+            rep.violation("G12", "marks-cleared-over-the-piece-itself", where,
+                          "marks are cleared from `%s` (first quantum of piece `%s`) over `%s` quanta, the length of piece `%s`: when "
+                          "the freed piece is larger than the marked free neighbour it swallows, the loop runs on into the next "
+                          "piece and wipes the marks of a live block, which the sweep then frees and poisons"
+                          % (start, owner[start], b, owner[b]))
+    rep.floor("mark-clearing loops of the mixed sweep", n, 2)
+
+
 def run(tier, only=None):
     rep = common.Report("C09", tier, EXPLANATION)
     check_config(rep, "compiler", common.compiler_units())
@@ -568,6 +654,7 @@ def run(tier, only=None):
         c10_store_tables.check_carving(rep, config, rule="G4")
     g5(rep)
     g10(rep)
+    g12(rep)
     from . import c20_containers
     c20_containers.v11(rep, rule="G11")      # the store's index of free pieces is this B-tree
     for config in ("compiler", "runtime"):
